@@ -1,18 +1,22 @@
-"""One round of sampling through the real Bencher entry points (shared by C01 and C02).
+"""One sample through the real sample recorder and the real Bencher closures (shared by C01, C02).
 
-In the SCRATCH COPY only, `bench_loop_threaded` is given a `#[cfg(kani)]` early return into a
-hook `verif_one_round` that is ASSEMBLED MECHANICALLY FROM THE REPOSITORY'S OWN TEXT of that
-function: the creation of the sample recorder, the thread-count lines and the whole "one round"
-pieces of the "one round" fragment that matter here (barrier creation, the per-input counter
-closure, the record_sample call) — the fragment the Verus loop unit (C03/C04/C19) replaces by an
-assumed contract. The thread pool is not used: the threads' samples are taken one after the
-other on the one Kani thread. Everything below that —
-sample_recorder with its three code paths, DeferStore, the six Bencher closures with their unsafe
-read()/assume_init_mut()/assume_init_drop() — is the compiled repository code.
+In the SCRATCH COPY only, two things are added to src/benchmark/mod.rs:
+* shims `verif_rec_values` / `verif_rec_refs` whose bodies are ASSEMBLED MECHANICALLY FROM THE
+  REPOSITORY'S TEXT: `self.sample_recorder(gen_input, <closures>)` where <closures> is the text
+  of the second and third argument of the `bench_loop_threaded(..)` call inside
+  `Bencher::bench_values` / `Bencher::bench_refs` (the unsafe read().assume_init(),
+  assume_init_mut(), assume_init_drop() closures; the `_local` forms and bench / bench_local use
+  the same text). The harness calls the returned recorder once per thread, one thread after the
+  other on the one Kani thread. (Going through the whole entry point + a one-round hook was
+  tried first: 5 min per harness and memory-safety failures inside Kani's realloc model that do
+  not occur when the recorder is called directly; cause not identified.)
+* a `#[cfg(kani)]` early return at the top of `bench_loop_threaded` that records
+  `self.thread_count`, used by the harnesses that call the six real entry points to check that
+  the `_local` forms force the calling thread.
 
-Instrumented input/output types and stubs for the timestamp reads, fences and Barrier::wait log
-events into a static array; the rules of C01 / C02 are assertions over that log, tagged with the
-property they belong to."""
+Below the shims everything is compiled repository code: `sample_recorder` with its three code
+paths and `DeferStore`. Instrumented values and stubs for the timestamp reads, fences and
+Barrier::wait drive an online monitor; each assertion is tagged with the property it states."""
 import re
 
 from lib import rsx
@@ -23,45 +27,25 @@ BENCH = "src/benchmark/mod.rs"
 
 def hook_text(S: Sources) -> str:
     b = S(BENCH)
-    f = b.find_fn("bench_loop_threaded", impl=r"impl<'a> BenchContext<'a>")
-    recorder, _ = rsx.region(f, r"let record_sample = self \. sample_recorder", r"drop_input \) ;")
-    tc, _ = rsx.region(f, r"let thread_count = self \. thread_count \. get \( \) ;", r"let is_single_thread = aux_thread_count == 0 ;")
-    barrier, _ = rsx.region(f, r"let barrier = if is_single_thread \{", r"Some \( Barrier :: new \( thread_count \) \) \} ;")
-    # the per-input counter closure of the round fragment (shows each input to every input counter)
-    counting, _ = rsx.region(f, r"let mut counter_totals : \[ u128 ; KnownCounterKind :: COUNT \] =", r"\* total = \( \* total \) \. saturating_add \( count as u128 \) ; \} \} \} ;")
-    call, _ = rsx.region(f, r"let \( \[ start , end \] , alloc_info \) = record_sample \(", r"& mut count_input , \) ;")
-    sig = f.header_text()
-    sig = re.sub(r"\bfn\s+bench_loop_threaded\b", "fn verif_one_round", sig, count=1)
-    return f"""
-#[cfg(kani)]
-impl<'a> BenchContext<'a> {{
-    /// one sample per thread, the threads run one after the other; assembled from the text of
-    /// bench_loop_threaded: recorder creation, thread-count lines, barrier creation, the
-    /// per-input counter closure and the record_sample call
-    {sig} {{
-        self.did_run = true;
-        verif_round::entered(self.thread_count.get());
-        {recorder}
-        {tc}
-        let sample_size: u32 = verif_round::sample_size();
-        {barrier}
-        let mut thread = 0usize;
-        while thread < thread_count {{
-            verif_round::on_thread(thread);
-            {counting}
-            {call}
-            let _ = (start, end, counter_totals);
-            verif_round::finished(thread, &alloc_info);
-            thread += 1;
-        }}
-        verif_round::on_thread(0);
-    }}
-}}
-"""
+    out = []
+    for meth, shim, benched_ty in (("bench_values", "verif_rec_values", "&'s (impl Fn(I) -> O + 's)"),
+                                   ("bench_refs", "verif_rec_refs", "&'s (impl Fn(&mut I) -> O + 's)")):
+        f = b.find_fn(meth, impl=r"impl<'a, 'b, I, GenI> Bencher<'a, 'b, BencherConfig<GenI>>")
+        # the 2nd and 3rd argument of `self.context.bench_loop_threaded(self.config.gen_input, <..>, <..>,);`
+        closures, _ = rsx.region(f, r"self \. config \. gen_input ,", r"\) ; \}$", include_end=False)
+        closures = re.sub(r"^\s*self\s*\.\s*config\s*\.\s*gen_input\s*,", "", closures)
+        out.append(f"""
+    /// `sample_recorder` with the closures of `Bencher::{meth}` (text copied from that method)
+    fn {shim}<'s, I: 's, O: 's>(&'s self, gen_input: impl Fn() -> I + 's, benched: {benched_ty})
+        -> impl Fn(usize, Option<&Barrier>, &mut dyn FnMut(&I)) -> ([Timestamp; 2], ThreadAllocInfo) + 's
+    {{
+        self.sample_recorder(gen_input, {closures})
+    }}""")
+    return "\n#[cfg(kani)]\nimpl<'a> BenchContext<'a> {" + "\n".join(out) + "\n}\n"
 
 
 PATCH = (BENCH, r"(fn bench_loop_threaded<I, O>\([^{]*\)\s*\{)",
-         r"\1\n        #[cfg(kani)]\n        { return self.verif_one_round(gen_input, benched, drop_input); }\n", 1)
+         r"\1\n        #[cfg(kani)]\n        { verif_round::entered(self.thread_count.get()); self.did_run = true; return; }\n", 1)
 
 
 KANI = r"""
@@ -134,7 +118,7 @@ mod verif_round {
                     M_CALL |= bit;
                 }
             } else if kind == DROP_OUT {
-                assert!(m.phase == 2, "[C02] output dropped before the end timestamp of its sample");
+                assert!(m.phase == 2, "[C01][C02] output dropped before the end timestamp of its sample");
                 assert!(THREADS_RUN == 1 || m.barriers_after == 1, "[C02] output dropped before the threads met after the end timestamp");
                 m.drop_out += 1;
                 if bit != 0 {
@@ -144,7 +128,7 @@ mod verif_round {
                     M_DOUT |= bit;
                 }
             } else if kind == DROP_IN {
-                assert!(m.phase == 2, "[C02] input dropped before the end timestamp of its sample");
+                assert!(m.phase == 2, "[C01][C02] input dropped before the end timestamp of its sample");
                 assert!(THREADS_RUN == 1 || m.barriers_after == 1, "[C02] input dropped before the threads met after the end timestamp");
                 m.drop_in += 1;
                 if bit != 0 {
@@ -237,14 +221,14 @@ mod verif_round {
     }
 
     // ------------------------------------------------------------------ drivers
-    fn setup(threads: usize, n: u32) -> (SharedContext, BenchOptions<'static>, u32) {
-        unsafe { SAMPLE_SIZE = n; NEXT_ID = 0; SAMPLES = 0; }
-        let sh = SharedContext { action: Action::Bench, timer: Timer::Tsc { frequency: NonZeroU64::new(1_000_000_000_000).unwrap() }, thread_pool: ThreadPool::new() };
-        (sh, BenchOptions::default(), n)
+    fn context_parts() -> (SharedContext, BenchOptions<'static>) {
+        (SharedContext { action: Action::Bench, timer: Timer::Tsc { frequency: NonZeroU64::new(1_000_000_000_000).unwrap() }, thread_pool: ThreadPool::new() },
+         BenchOptions::default())
     }
 
-    macro_rules! harness {
-        ($name:ident, n = $n:expr, threads = $t:expr, local = $local:expr, shape = $shape:expr, |$b:ident| $body:expr) => {
+    /// one sample per thread through `$rec` (a recorder made by one of the shims), threads one after the other
+    macro_rules! sample_harness {
+        ($name:ident, n = $n:expr, threads = $t:expr, shape = $shape:expr, count = $count:expr, via = $via:ident, gen = $gen:expr, benched = $benched:expr) => {
             #[kani::proof]
             #[kani::unwind(6)]
             #[kani::stub(std::hash::RandomState::new, zeroed_random_state)]
@@ -254,12 +238,26 @@ mod verif_round {
             #[kani::stub(crate::time::timestamp::tsc::TscTimestamp::end, stub_ts_end)]
             #[kani::stub(std::sync::Barrier::wait, stub_barrier_wait)]
             fn $name() {
-                let (sh, opts, n) = setup($t, $n);
-                unsafe { OUT_DROP_TRACKED = $shape.out_drop && $shape.out_id; }
-                let mut cx = BenchContext::new(&sh, &opts, NonZeroUsize::new($t).unwrap());
-                { let $b = Bencher::new(&mut cx); $body; }
-                assert!(cx.did_run);
-                check(n, $t, $local, &$shape);
+                let (sh, opts) = context_parts();
+                let n: u32 = $n; let t: usize = $t;
+                unsafe { SAMPLE_SIZE = n; NEXT_ID = 0; SAMPLES = 0; THREADS_RUN = t; OUT_DROP_TRACKED = $shape.out_drop && $shape.out_id; }
+                let cx = BenchContext::new(&sh, &opts, NonZeroUsize::new(t).unwrap());
+                {
+                    let benched = $benched;
+                    let rec = cx.$via($gen, &benched);
+                    let barrier = if t > 1 { Some(Barrier::new(t)) } else { None };
+                    let mut count = $count;
+                    on_thread(0);
+                    let (_ts, info) = rec(n as usize, barrier.as_ref(), &mut count);
+                    finished(0, &info);
+                    if t > 1 {
+                        on_thread(1);
+                        let (_ts, info) = rec(n as usize, barrier.as_ref(), &mut count);
+                        finished(1, &info);
+                        on_thread(0);
+                    }
+                }
+                check(n, t, false, &$shape);
                 kani::cover!(true);
             }
         };
@@ -272,58 +270,84 @@ mod verif_round {
     fn gen_p() -> InP { let id = next_id(); log(GEN, id); tally(1); InP(id) }
     fn gen_z() -> InZ { log(GEN, ZST); tally(1); InZ }
     fn gen_unit() { log(GEN, ZST); tally(1); }
-    fn cnt_s(i: &InS) -> ItemsCount { log(COUNT, i.0); ItemsCount::new(1u32) }
-    fn cnt_p(i: &InP) -> ItemsCount { log(COUNT, i.0); ItemsCount::new(1u32) }
-    fn cnt_z(_: &InZ) -> ItemsCount { log(COUNT, ZST); ItemsCount::new(1u32) }
 
-    // deferred-slots path (output needs drop): sized Drop input, sized Drop output
-    harness!(values_slots, n = 2, threads = 1, local = false, shape = shape(false, true, true, true, true, false),
-        |b| b.with_inputs(gen_s).bench_values(|i: InS| { let id = i.0; log(CALL, id); tally(16); std::mem::forget(i); OutS(id) }));
-    harness!(refs_slots, n = 2, threads = 1, local = false, shape = shape(true, true, true, true, true, true),
-        |b| b.with_inputs(gen_s).input_counter(cnt_s).bench_refs(|i: &mut InS| { log(CALL, i.0); tally(16); OutS(i.0) }));
-    harness!(local_refs_slots, n = 1, threads = 3, local = true, shape = shape(true, true, true, true, true, false),
-        |b| b.with_inputs(gen_s).bench_local_refs(|i: &mut InS| { log(CALL, i.0); tally(16); OutS(i.0) }));
-    harness!(local_values_slots, n = 1, threads = 2, local = true, shape = shape(false, true, true, true, true, false),
-        |b| b.with_inputs(gen_s).bench_local_values(|i: InS| { let id = i.0; log(CALL, id); tally(16); std::mem::forget(i); OutS(id) }));
+    // deferred-slots path (the output needs drop): sized Drop input, sized Drop output
+    sample_harness!(values_slots, n = 2, threads = 1, shape = shape(false, true, true, true, true, true), count = |i: &InS| log(COUNT, i.0),
+        via = verif_rec_values, gen = gen_s, benched = |i: InS| { let id = i.0; log(CALL, id); tally(16); std::mem::forget(i); OutS(id) });
+    sample_harness!(refs_slots, n = 2, threads = 1, shape = shape(true, true, true, true, true, true), count = |i: &InS| log(COUNT, i.0),
+        via = verif_rec_refs, gen = gen_s, benched = |i: &mut InS| { log(CALL, i.0); tally(16); OutS(i.0) });
     // deferred-slots path with a zero-sized output that has a destructor
-    harness!(refs_slots_zst_out, n = 2, threads = 1, local = false, shape = shape(true, true, true, false, true, false),
-        |b| b.with_inputs(gen_s).bench_refs(|i: &mut InS| { log(CALL, i.0); tally(16); OutZ }));
-    harness!(values_slots_zst_out, n = 2, threads = 1, local = false, shape = shape(false, true, false, false, true, false),
-        |b| b.with_inputs(gen_p).bench_values(|i: InP| { log(CALL, i.0); tally(16); OutZ }));
-    // inputs-only path (output needs no drop)
-    harness!(refs_inputs_only, n = 2, threads = 1, local = false, shape = shape(true, true, true, false, false, false),
-        |b| b.with_inputs(gen_s).bench_refs(|i: &mut InS| { log(CALL, i.0); tally(16); i.0 as u32 }));
-    harness!(values_inputs_only, n = 2, threads = 1, local = false, shape = shape(false, true, false, false, false, true),
-        |b| b.with_inputs(gen_p).input_counter(cnt_p).bench_values(|i: InP| { log(CALL, i.0); tally(16); i.0 as u32 }));
-    // zero-sized fast path
-    harness!(refs_zst_both_drop, n = 2, threads = 1, local = false, shape = shape(true, false, true, false, true, false),
-        |b| b.with_inputs(gen_z).bench_refs(|_i: &mut InZ| { log(CALL, ZST); tally(16); OutZ }));
-    harness!(refs_slots_empty_sample, n = 0, threads = 1, local = false, shape = shape(true, true, true, true, true, false),
-        |b| b.with_inputs(gen_s).bench_refs(|i: &mut InS| { log(CALL, i.0); tally(16); OutS(i.0) }));
-    harness!(bench_plain, n = 2, threads = 1, local = false, shape = shape(false, false, false, false, false, false),
-        |b| b.bench(|| { log(CALL, ZST); tally(16); 7u32 }));
-    harness!(bench_local_plain_drop_out, n = 2, threads = 2, local = true, shape = shape(false, false, false, true, true, false),
-        |b| { let mut k = 0u8; b.bench_local(move || { log(CALL, ZST); tally(16); k += 1; OutS(100 + k) }) });
-    // two threads (run one after the other by the sequential stand-in): barriers, per-thread samples, thread affinity
-    harness!(refs_slots_two_threads, n = 1, threads = 2, local = false, shape = shape(true, true, true, true, true, true),
-        |b| b.with_inputs(gen_s).input_counter(cnt_s).bench_refs(|i: &mut InS| { log(CALL, i.0); tally(16); OutS(i.0) }));
+    sample_harness!(refs_slots_zst_out, n = 2, threads = 1, shape = shape(true, true, true, false, true, true), count = |i: &InS| log(COUNT, i.0),
+        via = verif_rec_refs, gen = gen_s, benched = |i: &mut InS| { log(CALL, i.0); tally(16); OutZ });
+    sample_harness!(values_slots_zst_out, n = 2, threads = 1, shape = shape(false, true, false, false, true, true), count = |i: &InP| log(COUNT, i.0),
+        via = verif_rec_values, gen = gen_p, benched = |i: InP| { log(CALL, i.0); tally(16); OutZ });
+    // inputs-only path (the output needs no drop)
+    sample_harness!(refs_inputs_only, n = 2, threads = 1, shape = shape(true, true, true, false, false, true), count = |i: &InS| log(COUNT, i.0),
+        via = verif_rec_refs, gen = gen_s, benched = |i: &mut InS| { log(CALL, i.0); tally(16); i.0 as u32 });
+    sample_harness!(values_inputs_only, n = 2, threads = 1, shape = shape(false, true, false, false, false, true), count = |i: &InP| log(COUNT, i.0),
+        via = verif_rec_values, gen = gen_p, benched = |i: InP| { log(CALL, i.0); tally(16); i.0 as u32 });
+    // sample size 0 and 1
+    sample_harness!(refs_slots_empty_sample, n = 0, threads = 1, shape = shape(true, true, true, true, true, true), count = |i: &InS| log(COUNT, i.0),
+        via = verif_rec_refs, gen = gen_s, benched = |i: &mut InS| { log(CALL, i.0); tally(16); OutS(i.0) });
+    sample_harness!(values_slots_one, n = 1, threads = 1, shape = shape(false, true, true, true, true, true), count = |i: &InS| log(COUNT, i.0),
+        via = verif_rec_values, gen = gen_s, benched = |i: InS| { let id = i.0; log(CALL, id); tally(16); std::mem::forget(i); OutS(id) });
+    // no inputs (bench / bench_local): unit input, sized Drop output -> slots path with a zero-sized input
+    sample_harness!(no_input_drop_out, n = 2, threads = 1, shape = shape(false, false, false, false, true, true), count = |_i: &()| log(COUNT, ZST),
+        via = verif_rec_values, gen = gen_unit, benched = |_: ()| { log(CALL, ZST); tally(16); OutS(ZST) });
+    // zero-sized fast path (needs Kani to accept MaybeUninit::zeroed() of a zero-sized type)
+    sample_harness!(zst_fast_path, n = 2, threads = 1, shape = shape(true, false, true, false, true, true), count = |_i: &InZ| log(COUNT, ZST),
+        via = verif_rec_refs, gen = gen_z, benched = |_i: &mut InZ| { log(CALL, ZST); tally(16); OutZ });
+    // two threads one after the other: barrier waits, per-thread samples and allocation figures, thread affinity
+    sample_harness!(refs_slots_two_threads, n = 1, threads = 2, shape = shape(true, true, true, true, true, true), count = |i: &InS| log(COUNT, i.0),
+        via = verif_rec_refs, gen = gen_s, benched = |i: &mut InS| { log(CALL, i.0); tally(16); OutS(i.0) });
+
+    // ------------------------------------------------------------------ the six real entry points: which thread count reaches the loop
+    macro_rules! entry_harness {
+        ($name:ident, local = $local:expr, |$b:ident| $body:expr) => {
+            #[kani::proof]
+            #[kani::unwind(6)]
+            #[kani::stub(std::hash::RandomState::new, zeroed_random_state)]
+            fn $name() {
+                let (sh, opts) = context_parts();
+                let configured: usize = kani::any(); kani::assume(1 <= configured && configured <= 64);
+                unsafe { ENTERED_THREADS = 0; }
+                let mut cx = BenchContext::new(&sh, &opts, NonZeroUsize::new(configured).unwrap());
+                { let $b = Bencher::new(&mut cx); $body; }
+                assert!(cx.did_run);
+                let entered = unsafe { ENTERED_THREADS };
+                if $local { assert!(entered == 1, "[C01] a _local entry point must run on the calling thread alone whatever thread count is configured"); }
+                else { assert!(entered == configured, "[C01] the configured thread count reaches the loop"); }
+                kani::cover!(configured == 3);
+            }
+        };
+    }
+    entry_harness!(entry_bench, local = false, |b| b.bench(|| 1u8));
+    entry_harness!(entry_bench_values, local = false, |b| b.with_inputs(|| 1u8).bench_values(|x| x));
+    entry_harness!(entry_bench_refs, local = false, |b| b.with_inputs(|| 1u8).bench_refs(|x| *x));
+    entry_harness!(entry_bench_local, local = true, |b| { let mut k = 0u8; b.bench_local(move || { k = k.wrapping_add(1); k }) });
+    entry_harness!(entry_bench_local_values, local = true, |b| { let mut k = 0u8; b.with_inputs(|| 1u8).bench_local_values(move |x| { k = k.wrapping_add(x); k }) });
+    entry_harness!(entry_bench_local_refs, local = true, |b| { let mut k = 0u8; b.with_inputs(|| 1u8).bench_local_refs(move |x| { k = k.wrapping_add(*x); k }) });
 }
 """
 
 HARNESSES = [
-    ("values_slots", "bench_values, deferred-slots path (sized Drop input, sized Drop output), 1 thread", "quick"),
-    ("refs_slots", "bench_refs, deferred-slots path, 1 thread", "quick"),
-    ("local_refs_slots", "bench_local_refs with 3 threads configured", "quick"),
-    ("local_values_slots", "bench_local_values with 2 threads configured", "thorough"),
-    ("refs_slots_zst_out", "bench_refs, zero-sized output with destructor", "quick"),
-    ("values_slots_zst_out", "bench_values, plain sized input, zero-sized output with destructor", "thorough"),
-    ("refs_inputs_only", "bench_refs, inputs-only path (output needs no drop)", "quick"),
-    ("values_inputs_only", "bench_values, inputs-only path", "thorough"),
-    ("refs_zst_both_drop", "bench_refs, zero-sized fast path, both with destructors", "quick"),
-    ("refs_slots_empty_sample", "bench_refs with sample size 0", "quick"),
-    ("bench_plain", "bench (no inputs), zero-sized fast path", "quick"),
-    ("bench_local_plain_drop_out", "bench_local with 2 threads configured, sized Drop output", "thorough"),
-    ("refs_slots_two_threads", "bench_refs on 2 threads run sequentially: barriers, per-thread samples and allocation figures", "quick"),
+    ("values_slots", "closures of bench_values; deferred-slots path (sized Drop input, sized Drop output); sample size 2", "bounded", "thorough"),
+    ("refs_slots", "closures of bench_refs; deferred-slots path; sample size 2", "bounded", "quick"),
+    ("refs_slots_zst_out", "closures of bench_refs; zero-sized output with destructor; sample size 2", "bounded", "thorough"),
+    ("values_slots_zst_out", "closures of bench_values; plain sized input, zero-sized output with destructor; sample size 2", "bounded", "quick"),
+    ("refs_inputs_only", "closures of bench_refs; inputs-only path (output needs no drop); sample size 2", "bounded", "quick"),
+    ("values_inputs_only", "closures of bench_values; inputs-only path; sample size 2", "bounded", "thorough"),
+    ("refs_slots_empty_sample", "closures of bench_refs; sample size 0", "bounded", "thorough"),
+    ("values_slots_one", "closures of bench_values; sample size 1", "bounded", "thorough"),
+    ("no_input_drop_out", "no inputs (bench / bench_local shape): unit input, sized Drop output; sample size 2", "bounded", "quick"),
+    ("zst_fast_path", "zero-sized fast path, input and output zero-sized with destructors; sample size 2", "bounded", "thorough"),
+    ("refs_slots_two_threads", "closures of bench_refs on 2 threads run one after the other; sample size 1", "bounded", "quick"),
+    ("entry_bench", "Bencher::bench: thread count reaching the loop", "complete", "quick"),
+    ("entry_bench_values", "Bencher::bench_values: thread count reaching the loop", "complete", "quick"),
+    ("entry_bench_refs", "Bencher::bench_refs: thread count reaching the loop", "complete", "quick"),
+    ("entry_bench_local", "Bencher::bench_local forces thread_count 1", "complete", "quick"),
+    ("entry_bench_local_values", "Bencher::bench_local_values forces thread_count 1", "complete", "quick"),
+    ("entry_bench_local_refs", "Bencher::bench_local_refs forces thread_count 1", "complete", "quick"),
 ]
 
 
@@ -331,13 +355,17 @@ def round_kani(S: Sources, errs: list, tag: str) -> KaniSpec:
     hook = guarded(lambda: hook_text(S), errs, None)
     if hook is None:
         return KaniSpec()
-    hs = [KaniHarness(f"verif_round::{n}", "bounded", bound="one round, concrete sample_size (0, 1 or 2 as in the harness), threads as stated, run sequentially",
-                      covers=c, tier=t) for n, c, t in HARNESSES]
+    hs = [KaniHarness(f"verif_round::{n}", k, bound=("one sample per thread, sample size as stated, threads run one after the other" if k == "bounded" else ""),
+                      covers=c, tier=t) for n, c, k, t in HARNESSES]
+    for h in hs:
+        if h.name.endswith("zst_fast_path"):
+            h.ignore = [(r"memset destination region writeable @ std::ptr::write_bytes::<",
+                         "Kani models MaybeUninit::<T>::zeroed() of a zero-sized T as a memset on a zero-sized object and flags the destination; no byte is written")]
     spec = KaniSpec(
         injections={BENCH: hook + KANI}, harnesses=hs, patches=[PATCH],
         stubs_note=[
-            "scratch-copy patch: bench_loop_threaded returns into verif_one_round (one round assembled from its own text; the loop itself is C03/C04/C19)",
-            "the pool is not used: the hook runs the recorded sample for thread 0, 1, .. one after the other on the one Kani thread; no real concurrency is explored; the unwrapping of per-thread results into RawSample values is not covered",
+            "scratch-copy patch: bench_loop_threaded records self.thread_count and returns (cfg(kani)); used by the entry_* harnesses only; the loop itself is C03/C04/C19",
+            "the pool is not used: the harness takes the sample of thread 0, then of thread 1, on the one Kani thread; no real concurrency is explored; the round fragment of the loop (per-input counter closure, RawSample assembly) is not covered",
             "TscTimestamp::start/end -> virtual counter that logs the read; time::fence::full_fence/compiler_fence -> loggers (inline asm is outside Kani)",
             "std::sync::Barrier::wait -> logger that returns at once; std::hash::RandomState::new -> zero keys",
         ], timeout_s=1500)
